@@ -69,11 +69,11 @@ def random_dir(rng: random.Random, root: str) -> None:
     os.makedirs(root)
     dirs = [root]
     for d in range(rng.randint(0, 2)):
-        p = os.path.join(rng.choice(dirs), f"d{d}")
+        p = os.path.join(rng.choice(dirs), rng.choice([f"d{d}", f".d{d}", f"d[{d}]", f"d{d}*x", f"d{d} v?"]))
         os.makedirs(p, exist_ok=True)
         dirs.append(p)
     for i in range(rng.randint(0, 4)):
-        name = rng.choice(["api", "net.strings", "x", "README", "k%d" % i])
+        name = rng.choice(["api", "net.strings", "x", "README", "k%d" % i, ".hidden", ".k%d.list" % i, "a[1]", "w*", "q?.txt"])
         lines = [rng.choice(WORDS + [b"", b""]) for _ in range(rng.randint(0, 5))]
         term = rng.choice([b"\n", b"\r\n", b"\r"])
         raw = term.join(lines) + (term if rng.random() < 0.6 else b"")
@@ -137,7 +137,7 @@ def run(prop: str, tier: str) -> int:
     # keyword directory layouts
     cwd = os.getcwd()
     for i in range(60 if tier == "quick" else 1500):
-        d = os.path.join(work, f"dir{i}")
+        d = os.path.join(work, f"dir{i}" + ["", "[2024]", " (copy)", ".d"][i % 4 if i % 3 != 1 else 0])
         random_dir(rng, d)
         files = read_dir(d)
         if i % 3 == 1:      # the directory given as a relative path (as `-k kw` on the command line would)
